@@ -13,6 +13,7 @@ From PowHsm Require Import Proofs.SrcLiftC02.
 From PowHsm Require Import Proofs.SrcEquivGateM.
 From PowHsm Require Import Proofs.SrcLiftGate.
 From PowHsm Require Import Proofs.SrcEquivGateV1M.
+From PowHsm Require Import Proofs.SrcLiftGateV1.
 Open Scope N_scope.
 
 (* for every JSON value the request gate answers or accepts; it never raises (rests on the generated command/validator tables) *)
@@ -160,5 +161,19 @@ Theorem C03_source_whole_request_path_v1_is_model :
          SrcM.srcm_HSM1ProtocolLedger____internal_handle_request cm init self (of_json request) w =
          SrcEquivDongleM.mres of_json (handle_request keccak kind V1 request w).
 Proof. exact (@srcm_handle_request_v1_ok). Qed.
+
+(* legacy mode: the translated request path raises exactly when the accepted command's operation raises *)
+Theorem C03_source_raises_only_from_operation_v1 :
+  forall (keccak : bytes -> bytes) (kind : dongle_kind) (init : ValM.pm pv)
+           (cm : string -> pv -> list pv -> pr pv) (self : pv) (request : json) 
+           (w : world) (e : exn) (w' : world),
+         env_ok_v1 kind init cm ->
+         SrcM.srcm_HSM1ProtocolLedger____internal_handle_request cm init self (of_json request) w =
+         (ValM.XRaise e, w') ->
+         exists (cmd : str) (req : obj) (opname : str) (op : M rtuple),
+           gate_request V1 request = GAccept cmd req /\
+           assoc_str cmd (dispatch_table V1) = Some opname /\
+           run_operation keccak kind V1 opname req = Some op /\ op w = (Exn e, w').
+Proof. exact (@src_raises_only_from_operation_v1). Qed.
 
 Example C03_nonvacuous : True. Proof. exact I. Qed. (* concrete lifetimes closed by vm_compute in Proofs/C03.v, including one that does stop (status outside the device range) *)
